@@ -68,9 +68,9 @@ def to_float(r):
 
 # ---------------------------------------------------------------------------------------------------------------
 # enumeration
-def enumerate_configs(ctx, prop, sizes, mods, nvar, nk, nmask, exhnb, tag="enum"):
+def enumerate_configs(ctx, prop, sizes, mods, nvar, nk, nmask, exhnb, nti=1, tag="enum"):
     consts = dict(Prop=prop, Seed=int(ctx.seed) % 997, Sizes=set(tuple(s) for s in sizes), Mods=set(mods),
-                  NVar=nvar, NK=nk, NMask=nmask, ExhNB=exhnb)
+                  NVar=nvar, NK=nk, NMask=nmask, ExhNB=exhnb, NTI=nti)
     m, cf = tlc.gen(ctx.work / tag, "MC_FvOracleEnum", "FvOracleEnum", consts, invariants=["Emit", "LawSizes"])
     res = ctx.tlc(m, cf, workers=WORKERS, allow_violation=False)
     recs = sorted(res.records, key=lambda r: (r["base"]["dim"], r["base"]["id"], r["base"]["kmode"],
